@@ -2,6 +2,7 @@ package main
 
 import (
 	"flag"
+	"go/types"
 	"fmt"
 	"go/ast"
 	"os"
@@ -125,6 +126,17 @@ func main() {
 						a.WriteTo(os.Stdout)
 					}
 				}
+				if t, ok := m.(*ssa.Type); ok {
+					for _, tt := range []types.Type{t.Type(), types.NewPointer(t.Type())} {
+						ms := L.Engine.prog.MethodSets.MethodSet(tt)
+						for i := 0; i < ms.Len(); i++ {
+							f := L.Engine.prog.MethodValue(ms.At(i))
+							if f != nil && f.Synthetic == "" && strings.Contains(f.Name(), os.Args[2]) {
+								f.WriteTo(os.Stdout)
+							}
+						}
+					}
+				}
 			}
 		}
 	case "verify":
@@ -181,22 +193,28 @@ func verifyAll(L *Loaded, sel func(c *Contract) bool, workDir string, timeout ti
 		if verbose {
 			fmt.Fprintf(os.Stderr, "  vcgen %-40s %d obligations, %d facts, %d runs, %.2fs %s\n", fr.Name, len(fr.Obls), len(fr.Facts), fr.Runs, time.Since(t0).Seconds(), fr.Err)
 		}
-		for _, o := range fr.Obls {
-			if only != "" && !strings.Contains(o.Name, only) {
-				continue
+		parts := fr.Parts
+		if len(parts) == 0 {
+			parts = []*FuncResult{fr}
+		}
+		for _, part := range parts {
+			for _, o := range part.Obls {
+				if only != "" && !strings.Contains(o.Name, only) {
+					continue
+				}
+				q := e.Query(part, o)
+				var gv []*Term
+				if !o.Cover {
+					gv = fr.Params
+				}
+				script := e.tb.Script(q, gv, false)
+				f := writeScript(workDir, o.Name, script)
+				j := job{fr: part, o: o, file: f}
+				if qf := e.QueryQF(part, o); qf != nil {
+					j.qf = writeScript(workDir, o.Name+".qf", e.tb.Script(qf, nil, false))
+				}
+				jobs = append(jobs, j)
 			}
-			q := e.Query(fr, o)
-			var gv []*Term
-			if !o.Cover {
-				gv = fr.Params
-			}
-			script := e.tb.Script(q, gv, false)
-			f := writeScript(workDir, o.Name, script)
-			j := job{fr: fr, o: o, file: f}
-			if qf := e.QueryQF(fr, o); qf != nil {
-				j.qf = writeScript(workDir, o.Name+".qf", e.tb.Script(qf, nil, false))
-			}
-			jobs = append(jobs, j)
 		}
 	}
 	results := make([]*OblResult, len(jobs))
@@ -208,7 +226,7 @@ func verifyAll(L *Loaded, sel func(c *Contract) bool, workDir string, timeout ti
 			defer wg.Done()
 			sem <- struct{}{}
 			defer func() { <-sem }()
-			r := Solve(j.file, j.qf, timeout, all)
+			r := Solve(j.file, j.qf, timeout, all, j.o.Cover)
 			or := &OblResult{O: j.o, C: j.fr.Contract, R: r, File: j.file}
 			switch {
 			case j.o.Cover && r.Status == "sat":
@@ -238,6 +256,7 @@ func cmdVerify(args []string) {
 	work := fs.String("work", "/verif/work/verify", "work dir")
 	to := fs.Duration("timeout", 10*time.Second, "per-query timeout")
 	all := fs.Bool("all", false, "run all solvers to completion")
+	debug := fs.Bool("debug", false, "for failed obligations print values of the goal's atoms from a model of the instantiated variant")
 	fs.Parse(args)
 	t0 := time.Now()
 	L, err := Load(*repo, "")
@@ -272,6 +291,9 @@ func cmdVerify(args []string) {
 			extra = " (unproved: " + or.O.Unproved + ")"
 		}
 		fmt.Printf("%s %-70s %-8s %-7s %.2fs%s\n", mark, or.O.Name, or.R.Status, or.R.Solver, or.R.Seconds, extra)
+		if mark == "FAIL" && *debug {
+			debugModel(L, frs, or, *work)
+		}
 		if mark == "FAIL" && or.R.Status == "sat" {
 			lines := strings.Split(or.R.Output, "\n")
 			if len(lines) > 12 {
@@ -284,4 +306,123 @@ func cmdVerify(args []string) {
 		}
 	}
 	fmt.Printf("%d obligations, %d not ok, %.1fs\n", len(ors), bad, time.Since(t0).Seconds())
+}
+
+
+// debugModel prints the values of the atoms of a failed goal in a model of the instantiated (QF) variant.
+func debugModel(L *Loaded, frs []*FuncResult, or *OblResult, work string) {
+	e := L.Engine
+	var fr *FuncResult
+	for _, f := range frs {
+		parts := f.Parts
+		if len(parts) == 0 {
+			parts = []*FuncResult{f}
+		}
+		for _, p := range parts {
+			for _, o := range p.Obls {
+				if o == or.O {
+					fr = p
+				}
+			}
+		}
+	}
+	if fr == nil {
+		return
+	}
+	q := e.QueryQF(fr, or.O)
+	if q == nil {
+		q = e.Query(fr, or.O)
+	}
+	goal := e.skolemize(or.O.Goal)
+	var atoms []*Term
+	seen := map[*Term]bool{}
+	var rec func(t *Term, d int)
+	rec = func(t *Term, d int) {
+		if seen[t] || len(atoms) > 40 || t.open {
+			return
+		}
+		seen[t] = true
+		switch t.Op {
+		case "and", "or", "not", "=>", "ite":
+			if t.Sort == SBool {
+				for _, a := range t.Args {
+					rec(a, d+1)
+				}
+				atoms = append(atoms, t)
+				return
+			}
+		case "=", "bvslt", "bvsle", "bvult", "bvule", "bvsgt", "bvsge":
+			for _, a := range t.Args {
+				if !a.IsLit() {
+					atoms = append(atoms, a)
+				}
+			}
+		}
+		atoms = append(atoms, t)
+	}
+	rec(goal, 0)
+	atoms = append(atoms, fr.Params...)
+	script := e.tb.Script(q, atoms, false)
+	f := writeScript(work, or.O.Name+".dbg", script)
+	r := Solve(f, "", 30*time.Second, false)
+	fmt.Printf("     --- debug model (%s) for %s\n", r.Status, or.O.Name)
+	out := r.Output
+	i := strings.Index(out, "((")
+	if i < 0 {
+		fmt.Println("     " + out)
+		return
+	}
+	// split the top-level list into (expr value) pairs
+	body := out[i+1:]
+	depth := 0
+	start := -1
+	var pairs []string
+	for k := 0; k < len(body); k++ {
+		switch body[k] {
+		case '(':
+			if depth == 0 {
+				start = k
+			}
+			depth++
+		case ')':
+			depth--
+			if depth == 0 && start >= 0 {
+				pairs = append(pairs, body[start:k+1])
+				start = -1
+			}
+			if depth < 0 {
+				k = len(body)
+			}
+		}
+	}
+	for idx, p := range pairs {
+		if idx >= len(atoms) {
+			break
+		}
+		// value = last s-expression of the pair
+		p = strings.TrimSpace(p[1 : len(p)-1])
+		val := p
+		d := 0
+		for k := len(p) - 1; k >= 0; k-- {
+			c := p[k]
+			if c == ')' {
+				d++
+			} else if c == '(' {
+				d--
+			}
+			if d == 0 && (c == ' ' || c == '\n') {
+				val = strings.TrimSpace(p[k:])
+				break
+			}
+		}
+		a := atoms[idx]
+		if a.Sort == SBool && val == "true" && idx < len(atoms)-len(fr.Params) {
+			continue // show only what is false or non-boolean
+		}
+		sh := e.tb.Show(a)
+		if len(sh) > 260 {
+			sh = sh[:260] + "..."
+		}
+		fmt.Printf("     %s\n        = %s\n", sh, strings.Join(strings.Fields(val), " "))
+	}
 }
